@@ -42,8 +42,10 @@ def check_stats(xs):
 
 def check_cov(xs, ys):
     rc = RunningCovariance()
-    for x, y in zip(xs, ys):
+    k = rnd.randrange(0, len(xs) + 1)
+    for x, y in zip(xs[:k], ys[:k]):
         rc.update(x, y)
+    rc.update_from_it(xs[k:], ys[k:])         # one at a time and in a chunk
     a, b = np.asarray(xs, float), np.asarray(ys, float)
     BIG[0] = max(float(np.abs(a).max()), float(np.abs(b).max()), 1.0) ** 2
     want = float(((a - a.mean()) * (b - b.mean())).mean())
